@@ -520,6 +520,28 @@ func TestC19_Corruptions(t *testing.T) {
 			case 3:
 				seg[2] = seg[2][:rapid.IntRange(0, len(seg[2])).Draw(t, "sigCut")]
 			}
+			if rapid.IntRange(0, 2).Draw(t, "namesRespelled") == 0 {
+				// an otherwise genuine key whose type / curve names are spelled slightly differently: the places that compare
+				// these names do not all compare them the same way
+				m := k.JWKValue()
+				for _, n := range []string{"kty", "crv"} {
+					if v, ok := m[n].(string); ok && rapid.IntRange(0, 2).Draw(t, n+"Respelled") > 0 {
+						switch rapid.IntRange(0, 4).Draw(t, n+"Spelling") {
+						case 0:
+							m[n] = strings.ToUpper(v)
+						case 1:
+							m[n] = strings.ToLower(v)
+						case 2:
+							m[n] = strings.ToUpper(v[:1]) + strings.ToLower(v[1:])
+						case 3:
+							m[n] = v + " "
+						default:
+							m[n] = rapid.SampledFrom([]string{"EC", "OKP", "P-256", "P-384", "P-521", "secp256k1", "Ed25519", "SECP256K1", "ed25519", "p-256"}).Draw(t, n+"Other")
+						}
+					}
+				}
+				jwkV = m
+			}
 			runEntry(t, st, "JWS", []byte(refJCS(map[string]interface{}{"jws": strings.Join(seg, "."), "jwk": jwkV})), kind)
 			runEntry(t, st, "JWS", []byte(refJCS(map[string]interface{}{"jws": j, "jwk": jwkV})), kind)
 			nontrivial = true
